@@ -36,13 +36,13 @@ Print Assumptions C14_roundtrip.
 
 (* per format, with the weakest condition on the name: kthlist also accepts the names its own reader
    produces (they end with a newline): kth_name_ok *)
-Theorem C14_roundtrip_kthlist : forall G, gio_wf G -> io_kind G <> KBipartite -> kth_name_ok (io_name G) ->
+Theorem C14_roundtrip_kthlist : forall G, gio_wf G -> io_kind G <> GioBipartite -> kth_name_ok (io_name G) ->
   exists nm, gio_read_kth (io_kind G) (gio_write_kth G) = GOk (mkIOG (io_kind G) nm (io_n G) (io_r G) (io_edges G)).
 Proof. exact kth_roundtrip. Qed.
 Print Assumptions C14_roundtrip_kthlist.
 
-Theorem C14_roundtrip_kthlist_bipartite : forall G, gio_wf G -> io_kind G = KBipartite -> kth_name_ok (io_name G) ->
-  exists nm, gio_read_kthb (gio_write_kthb G) = GOk (mkIOG KBipartite nm (io_n G) (io_r G) (io_edges G)).
+Theorem C14_roundtrip_kthlist_bipartite : forall G, gio_wf G -> io_kind G = GioBipartite -> kth_name_ok (io_name G) ->
+  exists nm, gio_read_kthb (gio_write_kthb G) = GOk (mkIOG GioBipartite nm (io_n G) (io_r G) (io_edges G)).
 Proof. exact kthb_roundtrip. Qed.
 Print Assumptions C14_roundtrip_kthlist_bipartite.
 
@@ -50,20 +50,20 @@ Theorem C14_kth_name_ok : forall name, (no_nl name -> kth_name_ok name) /\ (no_n
 Proof. exact (fun name => conj (kth_name_ok_line name) (kth_name_ok_line_nl name)). Qed.
 Print Assumptions C14_kth_name_ok.
 
-Theorem C14_roundtrip_dimacs : forall G, gio_wf G -> io_kind G <> KBipartite -> no_nl (io_name G) ->
+Theorem C14_roundtrip_dimacs : forall G, gio_wf G -> io_kind G <> GioBipartite -> no_nl (io_name G) ->
   exists nm, gio_read_dimacs (io_kind G) (gio_write_dimacs G) = GOk (mkIOG (io_kind G) nm (io_n G) (io_r G) (io_edges G)).
 Proof. exact dimacs_roundtrip. Qed.
 Print Assumptions C14_roundtrip_dimacs.
 
-Theorem C14_roundtrip_matrix : forall G, gio_wf G -> io_kind G = KBipartite ->
-  gio_read_matrix (gio_write_matrix G) = GOk (mkIOG KBipartite [] (io_n G) (io_r G) (io_edges G)).
+Theorem C14_roundtrip_matrix : forall G, gio_wf G -> io_kind G = GioBipartite ->
+  gio_read_matrix (gio_write_matrix G) = GOk (mkIOG GioBipartite [] (io_n G) (io_r G) (io_edges G)).
 Proof. exact matrix_roundtrip. Qed.
 Print Assumptions C14_roundtrip_matrix.
 
 (* ---------- reader soundness: an accepted text describes the returned graph ---------- *)
 (* kthlist, simple and directed: comment/blank lines, ONE size line n, then rows "v : u1 ... uk 0" with
    strictly increasing v; the graph has n vertices and exactly the edges (u_i, v) of the rows *)
-Theorem C14_kth_sound : forall k text G, k <> KBipartite -> gio_read_kth k text = GOk G ->
+Theorem C14_kth_sound : forall k text G, k <> GioBipartite -> gio_read_kth k text = GOk G ->
   exists skips sl rest n,
     gt_lines text = skips ++ sl :: rest /\ Forall kth_skip skips /\ gio_kth_line (-1) sl = GOk (KISize n) /\
     io_kind G = k /\ io_n G = n /\ io_r G = 0 /\ gio_wf G /\
@@ -78,7 +78,7 @@ Print Assumptions C14_kth_sound.
 Theorem C14_kthb_sound_partial : forall text G, gio_read_kthb text = GOk G ->
   exists skips sl rest n,
     gt_lines text = skips ++ sl :: rest /\ Forall kth_skip skips /\ gio_kth_line (-1) sl = GOk (KISize n) /\
-    io_kind G = KBipartite /\ io_n G + io_r G = n /\ gio_wf G /\
+    io_kind G = GioBipartite /\ io_n G + io_r G = n /\ gio_wf G /\
     (NoDup (map fst (kth_rows n rest)) ->
      forall a b, In (a, b) (io_edges G) <->
                  exists r v, In r (kth_rows n rest) /\ In v (snd r) /\ a = fst r /\ b = v - io_n G).
@@ -92,7 +92,7 @@ Print Assumptions C14_kthb_sound_refuted.
 
 (* dimacs: exactly one line "p edge n m", m lines "e u v" after it, all vertices in range; the graph has
    n vertices and exactly those edges *)
-Theorem C14_dimacs_sound : forall k text G, k <> KBipartite -> gio_read_dimacs k text = GOk G ->
+Theorem C14_dimacs_sound : forall k text G, k <> GioBipartite -> gio_read_dimacs k text = GOk G ->
   exists n m, dm_ppairs (gt_lines text) = [(n, m)] /\ Z.of_nat (length (dm_epairs (gt_lines text))) = m /\
     io_kind G = k /\ io_n G = n /\ io_r G = 0 /\ gio_wf G /\
     Forall (edge_ok G) (dm_epairs (gt_lines text)) /\
@@ -103,7 +103,7 @@ Print Assumptions C14_dimacs_sound.
 (* matrix: the integers of the non comment lines are exactly those of the canonical file of the graph
    (L, R, then the L x R table of 0/1 in row order) *)
 Theorem C14_matrix_sound : forall text G, gio_read_matrix text = GOk G ->
-  gio_wf G /\ io_kind G = KBipartite /\ io_name G = [] /\
+  gio_wf G /\ io_kind G = GioBipartite /\ io_name G = [] /\
   gio_matrix_stream (gt_lines text) = map MGood (concat (matrix_rows G)).
 Proof. exact matrix_sound. Qed.
 Print Assumptions C14_matrix_sound.
@@ -160,26 +160,26 @@ Print Assumptions C14_dag_reject.
 
 (* ---------- gml / dot: cnfgen's own step (sort labels, relabel 1..n, from_networkx) ---------- *)
 (* gml ids are integers: identity for every size *)
-Theorem C14_gml_labels_identity : forall G, gio_wf G -> io_kind G <> KBipartite -> gio_gml_roundtrip G = Some (GOk G).
+Theorem C14_gml_labels_identity : forall G, gio_wf G -> io_kind G <> GioBipartite -> gio_gml_roundtrip G = Some (GOk G).
 Proof. exact gml_labels_identity. Qed.
 Print Assumptions C14_gml_labels_identity.
 
 (* dot labels are decimal strings, sorted lexicographically (D9): identity up to nine vertices only *)
-Theorem C14_dot_labels_partial : forall G, gio_wf G -> io_kind G <> KBipartite -> io_n G <= 9 ->
+Theorem C14_dot_labels_partial : forall G, gio_wf G -> io_kind G <> GioBipartite -> io_n G <= 9 ->
   gio_dot_roundtrip G = Some (GOk G).
 Proof. exact dot_labels_partial. Qed.
 Print Assumptions C14_dot_labels_partial.
-Theorem C14_dot_labels_refuted : exists G, gio_wf G /\ io_kind G = KSimple /\ gio_dot_roundtrip G <> Some (GOk G).
+Theorem C14_dot_labels_refuted : exists G, gio_wf G /\ io_kind G = GioSimple /\ gio_dot_roundtrip G <> Some (GOk G).
 Proof. exact dot_labels_refuted. Qed.
 Print Assumptions C14_dot_labels_refuted.
-Theorem C14_dot_12_vertices : gio_dot_roundtrip (mkIOG KSimple [] 12 0 [(2, 10)]) = Some (GOk (mkIOG KSimple [] 12 0 [(2, 5)])).
+Theorem C14_dot_12_vertices : gio_dot_roundtrip (mkIOG GioSimple [] 12 0 [(2, 10)]) = Some (GOk (mkIOG GioSimple [] 12 0 [(2, 5)])).
 Proof. exact dot_g12. Qed.
 Print Assumptions C14_dot_12_vertices.
 
 (* bipartite graphs: from_networkx uses the 'bipartite' attribute and the node order, nothing is sorted:
    what to_networkx + a faithful gml/dot writer and reader deliver (nodes "1".."L" with colour 0, then
    "L+1".."L+R" with colour 1) is rebuilt to the same graph at every size *)
-Theorem C14_bipartite_from_networkx : forall G, gio_wf G -> io_kind G = KBipartite ->
+Theorem C14_bipartite_from_networkx : forall G, gio_wf G -> io_kind G = GioBipartite ->
   gio_bip_from_nx gt_str_eqb (io_name G) (nx_bip_nodes (io_n G) (io_r G)) (nx_bip_edges (io_n G) (io_edges G)) = GOk G.
 Proof. exact bip_nx_roundtrip. Qed.
 Print Assumptions C14_bipartite_from_networkx.
@@ -196,5 +196,5 @@ Proof. exact g12d_example. Qed.
 
 (* the blank-line-free twin of the D7 witness is accepted: the partial theorem is not vacuous *)
 Example C14_dimacs_nonvacuous :
-  gio_read_graph true TSimple FDimacs dimacs_noblank_text = GOk (mkIOG KSimple [] 2 0 [(1, 2)]).
+  gio_read_graph true TSimple FDimacs dimacs_noblank_text = GOk (mkIOG GioSimple [] 2 0 [(1, 2)]).
 Proof. exact dimacs_noblank_ok. Qed.
